@@ -68,6 +68,10 @@ def insertion_points(base):
             w = t.t
             k = base.find(w, pos)
             q = base.find(b'"' + w + b'"', pos)
+        elif t.k == 'C':
+            w = b'/*' + t.t + b'*/'        # the only comment form the base texts use
+            k = base.find(w, pos)
+            assert k >= 0
         else:
             w = {'+': b'+='}.get(t.k, t.k.encode())
             k = base.find(w, pos)
@@ -86,13 +90,21 @@ def insert(base, off, item):
     return left + (b'' if not left or left.endswith(b' ') else b' ') + item + (b' ' if right else b'') + right
 
 
-def run(st, drv, items):
-    """items: (base, text_with_unknowns)"""
+def run(st, drv, items, annotated=False):
+    """items: (base, text_with_unknowns).  annotated: annotation support is on as well and the compared image includes the
+    annotations; the expected image is then the reference parser's for the whole text (a comment directly in front of an
+    unknown item goes away with it, so it must not reach the next declared option)"""
     cases, metas = [], []
     for base, text in items:
-        mb = reftext.meaning(G1, 0, base)
-        exp_dump = 'dump ' + dump_sec(mb.store, 0)
-        cases.append(Case(['init A G1 %d' % IG, 'cb_quiet 1', 'parse_buf A ' + enc(text), 'dump A 0']))
+        if annotated:
+            mb = reftext.meaning(G1, IG | CFGF['COMMENTS'], text)
+            assert mb.verdict == ACCEPT, text
+            exp_dump = 'dump ' + dump_sec(mb.store, 4)
+            cases.append(Case(['init A G1 %d' % (IG | CFGF['COMMENTS']), 'cb_quiet 1', 'parse_buf A ' + enc(text), 'dump A 4']))
+        else:
+            mb = reftext.meaning(G1, 0, base)
+            exp_dump = 'dump ' + dump_sec(mb.store, 0)
+            cases.append(Case(['init A G1 %d' % IG, 'cb_quiet 1', 'parse_buf A ' + enc(text), 'dump A 0']))
         metas.append(('with', base, text, exp_dump))
         cases.append(Case(['init A G1 0', 'cb_quiet 1', 'parse_buf A ' + enc(text)]))
         metas.append(('without', base, text, None))
@@ -152,6 +164,32 @@ def shard_single(sh):
                 break
     if buf:
         run(st, drv, buf)
+    return st.result([drv])
+
+
+CBASES = [b'i = 7', b'i = 7 l += {2}', b'/*b*/ i = 7 /*d*/ l = {2}', b's { x = 3 t { y = 4 } } i = 2', b's { /*b*/ x = 3 } m { x = 5 } i = 2',
+          b'kv { k0 = z } i = 7']
+
+
+def shard_commented(sh):
+    base, items, deadline = sh
+    drv = get_driver('asan')
+    drv.define_schema('G1', G1.spec())
+    st = ShardStats('commented unknown item, annotation support on')
+    pts = insertion_points(base)
+    buf = []
+    for it in items:
+        for off in pts:
+            for cm in (b'/* c */ ', b'# c\n', b''):
+                buf.append((base, insert(base, off, cm + it)))
+        if len(buf) >= 200:
+            run(st, drv, buf, annotated=True)
+            buf = []
+            if time.time() > deadline:
+                st.complete = False
+                break
+    if buf:
+        run(st, drv, buf, annotated=True)
     return st.result([drv])
 
 
@@ -229,6 +267,8 @@ def main():
     a1 = atoms(b'u') + [b'u { }', b'u t { }', b'u { a = 1 }', b'u { i = x }', b'u t { a() }']
     shards = [(b, [a], a1, dl) for b in BASES for a in a1]
     engine.phase(ck, 'pairs of unknown items at every boundary', shard_pairs, shards, pairs=len(a1) ** 2)
+    shards = [(b, list(ch), dl) for b in CBASES for ch in engine.chunks(d1, 40)]
+    engine.phase(ck, 'commented unknown item of nesting <= 1 at every boundary, annotation support on', shard_commented, shards, items=len(d1), bases=len(CBASES))
     if not quick:
         d3 = [b'u { ' + x + b' }' for x in d2] + [b'u t { ' + x + b' }' for x in d2]
         shards = [(b, list(ch), dl) for b in BASES[3:5] for ch in engine.chunks(d3, 80)]
